@@ -7,6 +7,7 @@ import Flowjaxv.Model.Planar
 import Flowjaxv.Model.Triangular
 import Flowjaxv.Gen.Misc
 import Flowjaxv.Model.JaxTrBij
+import Flowjaxv.Gen.Wrappers
 /-!
 # Vocabulary of `flowjax/flows.py` (hand-written, Mathlib-free, executable)
 
@@ -228,6 +229,87 @@ def condTail (condLinear : Option (List (List α))) : List (VBij α) :=
   match condLinear with
   | some W => [linearCondition W]
   | none => []
+
+/-! ### what the GENERATED `triangular_spline_flow.make_layer` / `get_splines` call (g25)
+
+The generated closure is the layer AS CONSTRUCTED.  A key is what it determines: `lt_key` ≙ the matrix
+`init(lt_key, (dim, dim))` returns (any matrix: `init` is an arbitrary callable), `perm_key` ≙ the permutation,
+`cond_key` ≙ the weight of `Linear(cond_dim, dim, use_bias=False)`.  The objects constructed without a key
+(`RationalQuadraticSpline(knots=…, interval=…)`, the raw diagonal / scale of the weight-normalised triangular matrix,
+`loc = zeros(dim)`) have their constructor values. -/
+
+/-- `(lt_key, perm_key, cond_key)` -/
+abbrev TriSplineKey (α : Type) := List (List α) × List Nat × List (List α)
+
+/-- `lt_key, perm_key, cond_key = jr.split(key, 3)` -/
+def jrSplit3 {P Q R : Type} (key : P × Q × R) : P × Q × R := key
+
+/-- `init(lt_key, (dim, dim))`: the key is the matrix the initialiser draws -/
+def initOf (lt_key : List (List α)) (_shape : Nat × Nat) : List (List α) := lt_key
+
+/-- `jnp.diag_indices(dim)` as index pairs -/
+def diagIndices (dim : Nat) : List (Nat × Nat) := (List.range dim).map fun i => (i, i)
+
+/-- `a.at[idx].set(v)` on a matrix: entries whose position is listed are replaced -/
+def atSet (a : List (List α)) (idx : List (Nat × Nat)) (v : α) : List (List α) :=
+  a.mapIdx fun i row => row.mapIdx fun j x => if idx.contains (i, j) then v else x
+
+/-- `jnp.zeros(dim)` -/
+def zeros (dim : Nat) : List α := List.replicate dim 0
+
+/-- a possibly wrapped matrix node of the stored pytree: a plain array / an already unwrapped `Lambda`, or
+`WeightNormalization(weight)` with its (unwrapped, positive) `scale` -/
+inductive WMat (α : Type) where
+  | plain (m : List (List α))
+  | weightNorm (weight : WMat α) (scale : List α)
+
+/-- `unwrap`, children first; the `WeightNormalization` node through the GENERATED `Wr.WeightNormalization.unwrap` -/
+def WMat.unwrap : WMat α → List (List α)
+  | .plain m => m
+  | .weightNorm w sc => (⟨w.unwrap, sc⟩ : Wr.WeightNormalization α).unwrap
+
+/-- `TriangularAffine` as stored: `triangular` is an unwrappable node (what `eqx.tree_at(lambda t: t.triangular, …)` replaces) -/
+structure TriAffP (α : Type) where
+  triangular : WMat α
+  loc : List α
+  lower : Bool
+
+/-- `TriangularAffine(loc, arr)` (default `lower=True`): `_to_triangular(softplus(raw), arr)` with
+`raw = SoftPlus.inverse(diag arr)` (`BijectionReparam(jnp.diag(arr), SoftPlus())`).  The constructor's checks (square `arr`,
+diagonal accepted by the reparameterisation) are C11's `gen_tri_ctor_*`; here `arr` is `dim × dim` with unit diagonal. -/
+def triangularAffineOf (loc : List α) (arr : List (List α)) : TriAffP α :=
+  { triangular := .plain (Params.triangularOfRaw true ((Tri.diag arr).map fun v => (Params.softplusInit v).arr) arr),
+    loc := loc, lower := true }
+
+/-- `WeightNormalization(weight)`: `scale = BijectionReparam(1 / ‖unwrap(weight)‖ (per row), SoftPlus())` -/
+def weightNormalization (w : WMat α) : WMat α :=
+  .weightNorm w ((w.unwrap.map fun row => (Params.softplusInit (1 / Transc.sqrt (Jnp.dot row row))).arr).map
+    fun r => (Params.softplusRaw r).unwrap)
+
+/-- a stored `TriangularAffine` as an entry of `Chain([...])`: its four methods on the unwrapped object -/
+def triAffBij (p : TriAffP α) : VBij α := (⟨p.triangular.unwrap, p.loc, p.lower⟩ : Tri.TriAffine α).toBij
+
+/-- `LeakyTanh(max_val, (dim,))`: the GENERATED scalar `LeakyTanh` on each of the `dim` coordinates -/
+def leakyTanhOf (max_val : α) (dim : Nat) : VBij α := Bij.elementwise (List.replicate dim (LeakyTanh.init max_val).toBij)
+
+/-- `RationalQuadraticSpline(knots=knots, interval=interval)` as constructed (`interval` a number ⇒ `(-interval, interval)`;
+defaults `min_derivative=1e-3`, `softmax_adjust=1e-2`; raw leaves `zeros(knots)`, `zeros(knots)`,
+`full(knots + 2, log(exp(1 - min_derivative) - 1))`), through `rqsSpline` (GENERATED parameterisations of `Gen/Params.lean`) -/
+def rqsCtor (knots : Nat) (interval : α) : RationalQuadraticSpline α :=
+  rqsSpline ⟨knots, (-interval, interval), 0.01, 0.001⟩
+    (List.replicate (2 * knots) 0 ++ List.replicate (knots + 2) (Transc.log (Transc.exp (1 - 0.001) - 1))) []
+
+/-- `eqx.filter_vmap(fn, axis_size=n)()`: `n` independently constructed objects (the stacked module, unstacked) -/
+def filterVmapN {β : Type} (fn : Unit → β) (n : Nat) : List β := List.replicate n (fn ())
+
+/-- `Vmap(spline, in_axes=eqx.if_array(0))` of stacked scalar splines: coordinate `i` through spline `i` -/
+def vmapOf (splines : List (RationalQuadraticSpline α)) : VBij α := Bij.elementwise (splines.map fun s => s.toBij)
+
+/-- `Linear(cond_dim, dim, use_bias=False, key=cond_key)`: the key is the `dim × cond_dim` weight -/
+def linearNoBias (_cond_dim _dim : Nat) (cond_key : List (List α)) : List (List α) := cond_key
+
+/-- `AdditiveCondition(linear, (dim,), (cond_dim,))` -/
+def additiveConditionOf (W : List (List α)) (_shape _cond_shape : Nat) : VBij α := linearCondition W
 
 /-- `triangular_spline_flow.make_layer` (hand model; the factory cannot be constructed in this environment):
 `Chain([LeakyTanh(m, (dim,)), Vmap(splines), Invert(LeakyTanh(m, (dim,))), tri_aff, (linear_condition)])`, then the
